@@ -30,7 +30,14 @@ HARNESS = os.path.join(vf.ROOT, "harness/py/codec_harness.py")
 
 
 def gen(run):
-    run.trxd_defs = trxd_proto.generate(run)
+    # Driver/Codec.lean imports Gen/TrxdProto.lean (the codec.pdu.* verbs of C17).  C16 itself is about codec.py only and
+    # uses none of it: when the live trxd_proto.py cannot be translated, the file of the last successful translation is
+    # kept so that the driver builds - that failure is C17's matter, never an alarm of this property
+    try:
+        run.trxd_defs = trxd_proto.generate(run)
+    except Exception:
+        if not os.path.exists(os.path.join(vf.LEAN, "OsmoVerif/Gen/TrxdProto.lean")):
+            raise
 
 
 def impl(lines, limit=None):
